@@ -63,6 +63,7 @@ type scenario struct {
 }
 
 type driver struct {
+	avoidSub string // filterThenBind prefers an offered node outside this node subnet (rollout spreads a generation)
 	rng      *rand.Rand
 	w        *env.World
 	sc       scenario
@@ -800,7 +801,15 @@ func (d *driver) filterThenBind(name string) {
 			return
 		}
 	}
-	d.startBind(name, nodes[d.rng.Intn(len(nodes))])
+	node := nodes[d.rng.Intn(len(nodes))]
+	if d.avoidSub != "" {
+		for _, n := range nodes {
+			if d.sc.NodeSub[n] != d.avoidSub {
+				node = n
+			}
+		}
+	}
+	d.startBind(name, node)
 	d.runAlone(d.lastOp())
 }
 
@@ -822,6 +831,9 @@ func (d *driver) rollout() {
 			d.deliverPod()
 		}
 		d.filterThenBind(s.Name)
+		if v, ok := d.w.TruthPods()[s.Name]; ok && v.Node != "" {
+			d.avoidSub = d.sc.NodeSub[v.Node] // the next pod of the generation goes to another node subnet if it can
+		}
 		names = append(names, s.Name)
 	}
 	if d.sc.Feat["scale"] && d.rng.Intn(2) == 0 {
@@ -833,6 +845,7 @@ func (d *driver) rollout() {
 			}
 		}
 	}
+	d.avoidSub = ""
 	for _, n := range names {
 		if d.w.DeletePod(n) {
 			delete(d.filtered, n)
@@ -850,6 +863,81 @@ func (d *driver) rollout() {
 		} else {
 			break
 		}
+	}
+}
+
+// staleKeyCycle (directed, C02): a deployment pod is deleted but its release event is not handled yet, so its key still holds
+// the IP; the replacement pod of the same name is filtered (it is offered the nodes of that IP), a whole resync pass runs
+// (it finds the IP under a foreign uid and puts it back to the app's reserve), then the pod is bound.
+func (d *driver) staleKeyCycle(name string) {
+	v, ok := d.w.TruthPods()[name]
+	if !ok || v.Node == "" || d.liveCount() > 0 {
+		return
+	}
+	if !d.w.DeletePod(name) {
+		return
+	}
+	delete(d.filtered, name)
+	d.emit(M{"ev": "DeletePod", "pod": name})
+	var spec *env.PodSpec
+	for i := range d.sc.Specs {
+		if d.sc.Specs[i].Name == name {
+			spec = &d.sc.Specs[i]
+		}
+	}
+	pv, err := d.w.CreatePod(*spec)
+	if err != nil {
+		return
+	}
+	d.inc[name]++
+	d.emit(M{"ev": "CreatePod", "pod": name, "uid": pv.UID, "ranges": pv.Ranges})
+	for guard := 0; len(d.w.Pevq) > 0 && guard < 50; guard++ {
+		d.deliverPod() // the delete event is delivered (its release event is queued), the release itself is not handled
+	}
+	d.startFilter(name)
+	if !d.runAlone(d.lastOp()) {
+		return
+	}
+	nodes := d.filtered[name]
+	if len(nodes) == 0 {
+		return
+	}
+	d.startResync()
+	if !d.runAlone(d.lastOp()) {
+		return
+	}
+	d.startBind(name, nodes[d.rng.Intn(len(nodes))])
+	d.runAlone(d.lastOp())
+}
+
+// preemptRaceFilter (directed, C06): the preemption extender and the filter extender are asked about the same pod at the
+// same time; their segments alternate.
+func (d *driver) preemptRaceFilter(name string) {
+	if d.liveCount() > 0 {
+		return
+	}
+	d.startPreempt(name)
+	a := d.lastOp()
+	d.startFilter(name)
+	b := d.lastOp()
+	for guard := 0; guard < 100 && !d.hung && d.w.Alive && !(a.op.Done && b.op.Done); guard++ {
+		r := d.runnable()
+		if len(r) == 0 {
+			return
+		}
+		pick := r[0]
+		for _, oi := range r { // alternate: prefer the one that did not move last
+			if (guard%2 == 0 && oi == a) || (guard%2 == 1 && oi == b) {
+				pick = oi
+			}
+		}
+		if pick != a && pick != b {
+			return
+		}
+		d.step(pick, 0, 0)
+	}
+	if nodes := d.filtered[name]; len(nodes) > 0 && b.op.Done {
+		d.filterThenBind(name)
 	}
 }
 
@@ -872,6 +960,9 @@ func (d *driver) startAction() bool {
 			}
 			if d.sc.Feat["preempt"] && (v.Policy != 0 || v.Pool != "") && !d.liveOf("preempt", name) {
 				add(2, func() { d.startPreempt(name) })
+				if d.sc.Feat["cycle"] {
+					add(4, func() { d.preemptRaceFilter(name) })
+				}
 			}
 			if nodes, ok := d.filtered[name]; ok && len(nodes) > 0 {
 				add(8, func() { d.startBind(name, nodes[d.rng.Intn(len(nodes))]) })
@@ -883,6 +974,14 @@ func (d *driver) startAction() bool {
 	}
 	if len(w.Work) > 0 {
 		add(10, d.startUnbind)
+	}
+	if d.sc.Feat["cycle"] && d.sc.Feat["resync"] && d.sc.Feat["rollout"] {
+		for _, sp := range d.sc.Specs {
+			name := sp.Name
+			if v, ok := truth[name]; ok && sp.Kind == "dp" && sp.Policy != 0 && v.Node != "" && v.Phase != "Done" {
+				add(3, func() { d.staleKeyCycle(name) })
+			}
+		}
 	}
 	if d.sc.Feat["resync"] && !d.liveOf("resync", "") && len(env.ProjectStore(w.Store)) > 0 {
 		add(1, d.startResync)
